@@ -277,10 +277,12 @@ where
 
     // Compare lengths: `MerkleCap::height` panics unless the length is a power of two.
     ensure!(trace_cap.len() == 1 << cap_height);
-    ensure!(
-        quotient_polys_cap.is_none()
-            || quotient_polys_cap.as_ref().map(|q| q.len()) == Some(1 << cap_height)
-    );
+    // The quotient commitment must be present exactly when the STARK has quotient polynomials:
+    // without its cap the quotient oracle's leaves would go unauthenticated in the FRI check.
+    ensure!(match quotient_polys_cap {
+        Some(cap) => cap.len() == 1 << cap_height,
+        None => stark.num_quotient_polys(config) == 0,
+    });
 
     ensure!(local_values.len() == S::COLUMNS);
     ensure!(next_values.len() == S::COLUMNS);
